@@ -15,7 +15,7 @@ CRASH = ("asan", "ubsan", "abort", "signal", "sanitizer", "truncated", "exit", "
 ENFORCED = {
     "C12": ("seq", "parse-stable", "open-stable", "input-intact", "hang", "baseline") + CRASH,
     "C13": ("scon", "scon-live", "leak", "fd-leak", "fd-discipline") + CRASH,
-    "C14": ("contract", "hang-parse", "must-fail") + CRASH,
+    "C14": ("contract", "hang-parse", "must-fail", "parse-stable") + CRASH,
     "C19": ("cli",) + CRASH,
 }
 
@@ -318,7 +318,8 @@ def simulate(z, plan, profile=None):
                 out.other = v
 
     check_seq = "seq" in enforced
-    v2, st = O.verify_history(plan, resp, bl, check_seq=check_seq)
+    v2, st = O.verify_history(plan, resp, bl, check_seq=check_seq,
+                              check_parse=("parse-stable" in enforced and bool(plan.get("knobs", {}).get("check_parse"))))
     out.stats = st
     out.baseline_runs = bl.runs
     out.baseline_timeouts = bl.timeouts
